@@ -131,8 +131,8 @@ def run(chk):
     rng = chk.rng
     npg, nph, ncurv = (60, 50, 40) if chk.tier == "quick" else (800, 600, 500)
     chk.notes["rule"] = ("polygons: regular, rectangles, kites, rhombi, triangles, random convex, star (non-convex); polyhedra: boxes, cubes, Platonic/"
-                         "Archimedean/Catalan entries, regular prisms of several heights, random hulls, tetrahedra; curved shapes; rigidly placed (exact "
-                         "rotation, offsets to 10). non-trivial = the shape lacks a circum- or in-ball, or is off-origin / tilted")
+                         "Archimedean/Catalan entries, regular prisms of several heights, random hulls, tetrahedra, cyclic solids with one vertex pushed out ('dented'); curved shapes; rigidly placed (exact "
+                         "rotation, offsets 0 / 1 / 10 / 100 / 300 units in a random direction). non-trivial = the shape lacks a circum- or in-ball, or is off-origin / tilted")
     # ------------------------------------------------------------------ polygons
     items = []
     for kind, P, cyc, tan in polygons(rng, npg):
